@@ -28,6 +28,7 @@ from __future__ import annotations
 from typing import Tuple, Iterable, List
 
 import dataclasses
+import decimal
 import functools
 import itertools
 
@@ -546,7 +547,20 @@ def __infer_const_set(
     # performed constant extraction.
     els = set()
     for el in ir.elements:
-        if isinstance(el, irast.BaseConstant):
+        if isinstance(el, irast.FloatConstant):
+            # Numeric literals are kept as source text: compare the
+            # values they denote, not their spelling (1.0 vs 1.00).
+            els.add(float(el.value))
+        elif isinstance(el, (
+            irast.IntegerConstant,
+            irast.BigintConstant,
+            irast.DecimalConstant,
+        )):
+            try:
+                els.add(decimal.Decimal(el.value))
+            except decimal.InvalidOperation:
+                return DUPLICATE
+        elif isinstance(el, irast.BaseConstant):
             els.add(el.value)
         else:
             return DUPLICATE
